@@ -8,6 +8,7 @@ use hpo::{HpoError, Ontology};
 pub enum World {
     Builder(Script),
     Bytes(Vec<u8>),
+    Sub(Box<World>, u32, Vec<u32>),
 }
 
 pub struct Built {
@@ -20,6 +21,7 @@ impl World {
         match self {
             World::Builder(s) => V::C("WBuilder", vec![s.to_v()]),
             World::Bytes(b) => V::C("WBytes", vec![crate::v::bytes(b)]),
+            World::Sub(w, root, leaves) => V::C("WSub", vec![w.to_v(), crate::v::n(*root), crate::v::ln(leaves)]),
         }
     }
     /// None = a call panicked
@@ -27,6 +29,18 @@ impl World {
         match self {
             World::Builder(s) => build::run(s).map(|(codes, result)| Built { codes, result }),
             World::Bytes(b) => crate::catch(std::panic::AssertUnwindSafe(|| Ontology::from_bytes(b))).map(|result| Built { codes: vec![], result }),
+            World::Sub(w, root, leaves) => {
+                let src = w.build()?;
+                match src.result {
+                    Err(e) => Some(Built { codes: vec![], result: Err(e) }),
+                    Ok(o) => crate::catch(std::panic::AssertUnwindSafe(|| {
+                        let rt = o.hpo(*root).expect("root in source ontology");
+                        let ls: Vec<hpo::HpoTerm> = leaves.iter().map(|l| o.hpo(*l).expect("leaf in source ontology")).collect();
+                        o.sub_ontology(rt, ls)
+                    }))
+                    .map(|result| Built { codes: vec![], result }),
+                }
+            }
         }
     }
 }
@@ -65,7 +79,68 @@ use crate::rng::Rng;
 
 /// a world for a random fact set: the Builder API (random call order) or a binary file of
 /// layout v1 / v2 / v3 (random record order).  Returns the facts the world can carry.
-pub fn gen_world(rng: &mut Rng, mut o: Opts, tags: &mut Vec<&'static str>) -> (World, Facts) {
+/// root and leaves for a sub-ontology of the facts: mostly valid (leaves below root)
+pub fn gen_sub_args(rng: &mut Rng, f: &Facts) -> (u32, Vec<u32>) {
+    let ids = f.ids();
+    // a root with descendants if possible
+    let mut root = *rng.pick(&ids);
+    for _ in 0..6 {
+        let cand = *rng.pick(&ids);
+        if ids.iter().filter(|x| f.ancestors(**x).contains(&cand)).count() >= 2 {
+            root = cand;
+            break;
+        }
+    }
+    let below: Vec<u32> = ids.iter().copied().filter(|x| *x == root || f.ancestors(*x).contains(&root)).collect();
+    let k = rng.range(1, 4) as usize;
+    let mut leaves = vec![];
+    for _ in 0..k {
+        if rng.chance(1, 12) {
+            leaves.push(*rng.pick(&ids)); // possibly outside root's subtree
+        } else {
+            leaves.push(*rng.pick(&below));
+        }
+    }
+    // a leaf that is an ancestor of another leaf (strictly below root)
+    if rng.chance(1, 2) {
+        let between: Vec<u32> = f.ancestors(leaves[0]).into_iter().filter(|x| f.ancestors(*x).contains(&root)).collect();
+        if !between.is_empty() {
+            leaves.push(*rng.pick(&between));
+        }
+    }
+    if rng.chance(1, 8) {
+        leaves.push(root);
+    }
+    if rng.chance(1, 6) {
+        let d = leaves[0];
+        leaves.push(d); // duplicate
+    }
+    (root, leaves)
+}
+
+pub fn gen_world(rng: &mut Rng, o: Opts, tags: &mut Vec<&'static str>) -> (World, Facts) {
+    let (w, f) = gen_world_base(rng, o, tags);
+    (w, f)
+}
+
+/// like gen_world, but one time in five the world is a sub-ontology of the generated one;
+/// returns the facts of the *source* world
+pub fn gen_world_sub(rng: &mut Rng, o: Opts, tags: &mut Vec<&'static str>) -> (World, Facts) {
+    gen_world_sub_p(rng, o, tags, 5)
+}
+
+pub fn gen_world_sub_p(rng: &mut Rng, o: Opts, tags: &mut Vec<&'static str>, one_in: u64) -> (World, Facts) {
+    let (w, f) = gen_world_base(rng, o, tags);
+    if rng.chance(1, one_in) {
+        let (root, leaves) = gen_sub_args(rng, &f);
+        tags.push("sub");
+        (World::Sub(Box::new(w), root, leaves), f)
+    } else {
+        (w, f)
+    }
+}
+
+fn gen_world_base(rng: &mut Rng, mut o: Opts, tags: &mut Vec<&'static str>) -> (World, Facts) {
     match rng.below(5) {
         0 | 1 => {
             o.flags = false;
